@@ -12,7 +12,7 @@ AREAS = [
     ('src/uri.rs', ['C12', 'C14']), ('src/repository/cert.rs', ['C01', 'C04', 'C05']), ('src/repository/sigobj.rs', ['C02', 'C04', 'C05']),
     ('src/repository/crl.rs', ['C04', 'C05', 'C01']), ('src/repository/x509.rs', ['C17', 'C04', 'C05']),
     ('src/repository/manifest.rs', ['C14', 'C04', 'C05']), ('src/repository/roa.rs', ['C02', 'C04', 'C05']),
-    ('src/repository/aspa.rs', ['C02', 'C04', 'C05']), ('src/repository/oid.rs', ['C04', 'C02', 'C10']),
+    ('src/repository/aspa.rs', ['C02', 'C04', 'C05']), ('src/repository/oid.rs', ['C04', 'C02', 'C10']), ('src/oid.rs', ['C04', 'C02', 'C10']),
     ('src/crypto/', ['C04', 'C01', 'C05']), ('src/rrdp.rs', ['C09']), ('src/xml/', ['C09', 'C11']),
     ('src/ca/publication.rs', ['C11']), ('src/ca/provisioning.rs', ['C11']), ('src/ca/idexchange.rs', ['C11']),
     ('src/ca/csr.rs', ['C04', 'C05']), ('src/ca/idcert.rs', ['C10', 'C04', 'C05']), ('src/ca/sigmsg.rs', ['C10', 'C04', 'C05']),
